@@ -26,7 +26,7 @@ for i in sorted(d for d in os.listdir(out) if d.isdigit()):
         meta = json.load(open(os.path.join(src, "meta.json")))
     except Exception:
         pass
-    meta.update({"property": pid, "confirmed": confirmed, "confirm_output": c.stdout.strip()[-300:],
+    meta.update({"base": subprocess.run(["git","-C","/repo","rev-parse","--short","HEAD"],capture_output=True,text=True).stdout.strip(), "property": pid, "confirmed": confirmed, "confirm_output": c.stdout.strip()[-300:],
                  "confirmed_by": "tools/confirm_seed.sh (demo passes clean; suite passes with patch; demo fails with patch)",
                  "check_run": f"tools/seedtest.sh {pid} seeded/{pid}-{i}/patch.diff",
                  "check_outcome": "caught with a concrete failing input" if concrete else ("caught, no failing input found" if viol else "MISSED"),
